@@ -18,6 +18,7 @@ import (
 type c10Step struct {
 	Prog string `json:"p"` // catalogue program name
 	EP   string `json:"ep"`
+	V    int    `json:"v,omitempty"` // data variant (0 = as catalogued)
 }
 
 type c10Case struct {
@@ -87,7 +88,7 @@ func init() {
 
 func (p *c10) ID() string { return "C10" }
 func (p *c10) Rule() string {
-	return fmt.Sprintf("catalogue of %d template programs (every directive, several bound attributes + static/bound class/style, v-show, includes, nested includes, slots incl. scoped/destructured/default-dynamic/nested components, layouts, front-matter, filters, full document, 7 failing programs) living in one filesystem; cases: every ordered pair (i,j) of programs on one long-lived engine x 2 filesystem configurations (with/without layouts/base.vuego), each program repeated 20x through all 4 entry points, seeded random sequences of length 3-8 mixing entry points; every step's bytes and error are compared with the same program on a fresh engine; caller data deep-compared before/after; every program prints the loop/prop/front-matter/slot variable names of all programs at top level (leak probes); non-trivial = sequence of >=2 steps; distinct by the step list", len(p.progs))
+	return fmt.Sprintf("catalogue of %d template programs (every directive, several bound attributes + static/bound class/style, v-show, includes, nested includes, slots incl. scoped/destructured/default-dynamic/nested components, layouts, front-matter, filters, full document, 7 failing programs) living in one filesystem; cases: every ordered pair (i,j) of programs on one long-lived engine (j, i, j with changed data, j) x 2 filesystem configurations (with/without layouts/base.vuego), each program repeated 20x through all 4 entry points, seeded random sequences of length 3-8 mixing entry points; every step's bytes and error are compared with the same program on a fresh engine; caller data deep-compared before/after; every program prints the loop/prop/front-matter/slot variable names of all programs at top level (leak probes); non-trivial = sequence of >=2 steps; distinct by the step list", len(p.progs))
 }
 
 func (p *c10) dims(ctx core.Ctx) (pairs, repeats, seqs int) {
@@ -109,13 +110,13 @@ func (p *c10) Gen(ctx core.Ctx, i int) any {
 		a, b := i/n, i%n
 		ep := catEntryPoints[(a+b+int(ctx.Seed))%len(catEntryPoints)]
 		ep2 := catEntryPoints[(a*3+b+int(ctx.Seed))%len(catEntryPoints)]
-		return c10Case{Kind: "pair", Base: base, Steps: []c10Step{{p.progs[b].Name, ep2}, {p.progs[a].Name, ep}, {p.progs[b].Name, ep2}}}
+		return c10Case{Kind: "pair", Base: base, Steps: []c10Step{{p.progs[b].Name, ep2, 0}, {p.progs[a].Name, ep, 0}, {p.progs[b].Name, ep2, 1}, {p.progs[b].Name, ep2, 0}}}
 	}
 	i -= pairs
 	if i < repeats {
 		c := c10Case{Kind: "repeat", Base: i%2 == 1}
 		for k := 0; k < 20; k++ {
-			c.Steps = append(c.Steps, c10Step{p.progs[i/2].Name, catEntryPoints[k%len(catEntryPoints)]})
+			c.Steps = append(c.Steps, c10Step{p.progs[i/2].Name, catEntryPoints[k%len(catEntryPoints)], (k / 4) % 3})
 		}
 		return c
 	}
@@ -123,7 +124,7 @@ func (p *c10) Gen(ctx core.Ctx, i int) any {
 	r := core.NewRNG(ctx.Seed, 0xC10, uint64(i))
 	c := c10Case{Kind: "seq", Base: r.Bool()}
 	for k := 3 + r.Intn(6); k > 0; k-- {
-		c.Steps = append(c.Steps, c10Step{p.progs[r.Intn(n)].Name, core.Pick(r, catEntryPoints)})
+		c.Steps = append(c.Steps, c10Step{p.progs[r.Intn(n)].Name, core.Pick(r, catEntryPoints), r.Intn(3)})
 	}
 	return c
 }
@@ -139,7 +140,7 @@ func (p *c10) files(base bool) map[string]string {
 }
 
 func (p *c10) reference(base bool, st c10Step, o *core.Obs) c10Ref {
-	key := fmt.Sprintf("%v/%s/%s", base, st.Prog, st.EP)
+	key := fmt.Sprintf("%v/%s/%s/%d", base, st.Prog, st.EP, st.V)
 	p.mu.Lock()
 	r, ok := p.ref[key]
 	p.mu.Unlock()
@@ -147,7 +148,7 @@ func (p *c10) reference(base bool, st c10Step, o *core.Obs) c10Ref {
 		return r
 	}
 	prog := &p.progs[p.byName[st.Prog]]
-	out, err := newCatEngine(memFS(p.files(base))).run(prog, st.EP, prog.Data.Go())
+	out, err := newCatEngine(memFS(p.files(base))).run(prog, st.EP, prog.Variant(st.V))
 	o.Evals++
 	r = c10Ref{out: out, err: errStr(err)}
 	p.mu.Lock()
@@ -173,8 +174,8 @@ func (p *c10) Exec(ctx core.Ctx, cc any) core.Obs {
 		}
 		prog := &p.progs[pi]
 		ref := p.reference(c.Base, st, &o)
-		data := prog.Data.Go()
-		snapshot := prog.Data.Go() // an independent deep copy built from the same description
+		data := prog.Variant(st.V)
+		snapshot := prog.Variant(st.V) // an independent deep copy built from the same description
 		out, err := eng.run(prog, st.EP, data)
 		o.Evals++
 		o.Cell("ep/" + st.EP)
@@ -227,7 +228,7 @@ func c10ProgClass(p *Prog) string {
 func c10Names(p *c10, c c10Case) []string {
 	var out []string
 	for _, s := range c.Steps {
-		out = append(out, s.Prog+"@"+s.EP)
+		out = append(out, fmt.Sprintf("%s@%s/v%d", s.Prog, s.EP, s.V))
 	}
 	return out
 }
